@@ -210,16 +210,24 @@ class Check(object):
             self.broken.append('forbidden construct in proof closure: ' + '; '.join(bad[:5]))
             return False
         # Print Assumptions
-        name = 'assume_%s' % self.pid
-        src = 'From Chi Require Import Properties.%s.\n' % self.pid
-        for t in theorems:
-            src += 'Print Assumptions %s.\n' % t
-        rc, out = self.coqc_text(name, src, 600)
-        if rc != 0:
-            self.cov['discharged'] = 0
-            self.broken.append('a property theorem is missing or Print Assumptions failed: ' + out[-600:])
-            return False
-        blocks = split_assumptions(out, theorems)
+        chunk = max(1, (len(theorems) + 11) // 12)
+        groups = [theorems[i:i + chunk] for i in range(0, len(theorems), chunk)]
+
+        def pa(k):
+            src = 'From Chi Require Import Properties.%s.\n' % self.pid
+            for t in groups[k]:
+                src += 'Print Assumptions %s.\n' % t
+            return self.coqc_text('assume_%s_%d' % (self.pid, k), src, 600)
+
+        with ThreadPoolExecutor(max_workers=12) as ex:
+            outs = list(ex.map(pa, range(len(groups))))
+        blocks = {}
+        for g, (rc, out) in zip(groups, outs):
+            if rc != 0:
+                self.cov['discharged'] = 0
+                self.broken.append('a property theorem is missing or Print Assumptions failed: ' + out[-600:])
+                return False
+            blocks.update(split_assumptions(out, g))
         ok = True
         for t in theorems:
             ax = blocks.get(t)
@@ -368,6 +376,47 @@ class Check(object):
         c['cases'] += len(cases)
         c['agree'] += len(cases) - n_fail
         return bad
+
+    def numeric(self, tag, header, unfold, cases, shard=24, timeout=1500, prec=80):
+        """cases: list of (label, [coq Prop strings]).  All propositions of a case are proved in one file
+        section; returns the set of case labels with at least one proposition that CoqInterval could not
+        prove (= disagreement between chi's floats and the model)."""
+        flat = []
+        for label, props in cases:
+            for j, pr in enumerate(props):
+                flat.append(('%s#%d' % (label, j), None, None, None, pr))
+        tactic = ('cbv [%s]; decide_guards; '
+                  'cbv beta iota delta [close sclose is_neginf lclose slclose fst snd]; '
+                  'repeat match goal with |- _ /\\ _ => split end; '
+                  'try exact I; interval with (i_prec %d)' % (' '.join(unfold), prec))
+        bad = self.interval(tag, header, tactic, flat, shard=shard, timeout=timeout)
+        self.cov['correspondence'][tag]['goals'] = len(flat)
+        self.cov['correspondence'][tag]['cases'] = len(cases)
+        badcases = sorted({b.split('#')[0] for b in bad})
+        self.cov['correspondence'][tag]['agree'] = len(cases) - len(badcases)
+        return badcases
+
+    def settle(self, what, failing, oracle, wider=None, key_of=None):
+        """A correspondence (or proof) break has been observed.  `failing`: list of case payloads on which
+        model and implementation disagree.  `oracle(case)` -> None if the property holds for the
+        implementation on that case according to an oracle independent of the Coq model, else a
+        description.  `wider`: iterable of further cases to search.  Reports violations with replay or
+        marks the correspondence as broken (-> no-failing-input-found)."""
+        found = False
+        for case in list(failing) + list(wider or []):
+            try:
+                r = oracle(case)
+            except Exception as e:  # the implementation raising where it should not is a failure too
+                r = 'implementation raised %s: %s' % (type(e).__name__, e)
+            if r:
+                key = key_of(case, r) if key_of else what
+                self.violation(key, r, case)
+                found = True
+                if len(self.violations) >= 3:
+                    break
+        if not found:
+            self.broken.append(what)
+        return found
 
     # ---------------- verdicts ----------------
     def violation(self, key, what, replay):
